@@ -169,10 +169,12 @@ def projAtt (κ : ScenKey × Option Retries) (evs : List Ev) : List Ev :=
 
 def countEv (e : Ev) (l : List Ev) : Nat := (l.filter (· == e)).length
 
-/-- `contract` = the harness says the stream is contract-abiding; `saferun` = `C11.SafeRun` of the input -/
-def monC11 (contract saferun : Bool) (evs : List Ev) (outs : List (List Ev)) : String :=
+/-- `contract` = the harness says the stream is contract-abiding; `saferun` = `C11.SafeRun` of the input;
+    `ledger` = `Cuke.Contract` of the input (the hypothesis of `C11.norm_contract_whole_run`) -/
+def monC11 (contract saferun ledger : Bool) (evs : List Ev) (outs : List (List Ev)) : String :=
   let flat := outs.flatten
-  if contract && !saferun then "!monitor NEW contract-abiding stream is not a SafeRun (theorem hypotheses do not cover it)"
+  if contract && !ledger then "!monitor NEW stream generated as contract-abiding is rejected by the contract ledger (Cuke.Contract)"
+  else if contract && !saferun then "!monitor NEW contract-abiding stream is not a SafeRun (theorem hypotheses do not cover it)"
   else if !contract then "ok"
   else if !(evs.all (fun e => countEv e flat == countEv e evs) && flat.length == evs.length) then "!monitor NEW T1 multiset differs"
   else if !seqOk flat then "!monitor NEW T2 output not sequential"
